@@ -454,7 +454,15 @@ pub mod details {
                 }
             };
 
-            storage.get().reserve_port(port_to_register.value(), msg)?;
+            if let Err(e) = storage.get().reserve_port(port_to_register.value(), msg) {
+                // When this call has created the storage, another instance has attached in the
+                // meantime (otherwise the reservation could not fail). The storage is in use by that
+                // instance and must not be removed together with this failed attempt.
+                if storage.has_ownership() {
+                    storage.release_ownership();
+                }
+                return Err(e);
+            }
 
             if storage.has_ownership() {
                 storage.release_ownership();
